@@ -423,6 +423,11 @@ where
             }
 
             if let Poll::Ready(Some(task_result)) = self.tasks.poll_next_unpin(cx) {
+                // Blockstore lookup is finished, so it can not be aborted anymore
+                if let TaskResult::Get(query_id, ..) = &task_result {
+                    self.query_abort_handle.remove(query_id);
+                }
+
                 match task_result {
                     // Blockstore already has the data so return them to the user
                     TaskResult::Get(query_id, _, Ok(Some(data))) => {
